@@ -345,8 +345,8 @@ prop('C04',
      technique='Lean 4 forest-completeness proof + Lean-shaped brute-force derivation sets compared with expanded _ambig results',
      design_ref='DESIGN.md §5 C04')
 prop('C05',
-     modules=['LarkVerif.Priority', 'LarkVerif.Props.C05', 'LarkVerif.Extracted'],
-     theorems=['Props.C05.forest_walk_is_max_over_derivations', 'Props.C05.no_derivation_beats_the_root', 'Props.C05.invert_is_min', 'Props.C05.derivs_negate', 'Props.C05.packed_sort_key_is_documented'],
+     modules=['LarkVerif.Priority', 'LarkVerif.Choice', 'LarkVerif.Props.C05', 'LarkVerif.Extracted'],
+     theorems=['Props.C05.forest_walk_is_max_over_derivations', 'Props.C05.no_derivation_beats_the_root', 'Props.C05.invert_is_min', 'Props.C05.derivs_negate', 'Props.C05.packed_sort_key_is_documented', 'Props.C05.empty_alternative_only_if_nothing_else', 'Props.C05.chosen_alternative_has_max_priority', 'Props.C05.ties_go_to_the_first_alternative', 'ChoiceProto.choose_min'],
      fingerprints=['lark/parsers/earley.py:Parser.predict_and_complete', 'lark/parsers/earley.py:Parser._parse', 'lark/parsers/xearley.py:Parser._parse', 'lark/parsers/earley_forest.py:ForestVisitor.visit', 'lark/parsers/earley_forest.py:ForestToParseTree.visit_packed_node_in', 'lark/parsers/earley_forest.py:PackedNode.sort_key', 'lark/parsers/earley_forest.py:PackedNode.__eq__', 'lark/parsers/earley_forest.py:PackedNode.__init__', 'lark/parsers/earley_forest.py:SymbolNode.add_family', 'lark/parsers/earley_forest.py:SymbolNode.is_ambiguous', 'lark/parsers/earley_forest.py:ForestToParseTree.on_cycle', 'lark/parsers/earley_forest.py:ForestSumVisitor.visit_packed_node_out', 'lark/parsers/earley_forest.py:ForestSumVisitor.visit_symbol_node_out', 'lark/visitors.py:CollapseAmbiguities.__default__'] + ['lark/lark.py:Lark.__init__'],
      rule='random prioritised ambiguous grammars (rule priorities -2..3, terminal priorities, inlined/?-rules, empty alternatives) x {basic, dynamic, dynamic_complete} x priority in {normal, invert, None}: the derivation the real parser '
           'chose (recovered with raw builders) must be one of the brute-force derivations, and for grammars without directly empty alternatives its total priority (rule priorities as written, plus terminal priorities under the dynamic lexers) '
